@@ -3,8 +3,8 @@ import SpecExtra
 /-! `specdriver`: the specification `Spec` vs the real crate.  A SPEC_MISMATCH is a replayable property failure of the
 implementation.  Does not import `Gen`, so it keeps working when the generated model does not build. -/
 open DriverCommon
-def evalSpec (ws : List String) : Option (Option String) :=
-  match SpecExtra.handle ws with
+def evalSpec (ws : List String) (res : String) : Option (Option String) :=
+  match SpecExtra.handle ws res with
   | some r => some r
   | none =>
     let a := hexU64 (ws.getD 2 "0"); let b := hexU64 (ws.getD 3 "0"); let c := hexU64 (ws.getD 4 "0")
